@@ -83,7 +83,9 @@ def _install():
                     _state["failures"].append(["construct", v.rule_id, vp, v.line, why, lines[v.line - 1].decode("utf-8", "replace")[:120], str(v.message)[:120]])
         return True
 
-    core.Orchestrator.lint_file = icontract.ensure(locations_ok, error=LocationContractBroken)(core.Orchestrator.lint_file)
+    # the per-file step of every entry point (lint_file, lint_files, lint_directory, pool workers): what it returns is about THAT file
+    prim = "_lint_file_with_rules" if hasattr(core.Orchestrator, "_lint_file_with_rules") else "lint_file"
+    setattr(core.Orchestrator, prim, icontract.ensure(locations_ok, error=LocationContractBroken)(getattr(core.Orchestrator, prim)))
 
 
 def pytest_configure(config):
